@@ -34,22 +34,26 @@ Theorem C09_delays : forall cfg t0 script, 1 <= c_min cfg <= c_max cfg ->
 Proof. exact wait_delays. Qed.
 Print Assumptions C09_delays.
 
-(* literal statement: the gap between a failure/loss and the next (non-immediate) attempt is
-   min (min_delay * 2^i) max_delay, i = number of such retries since the last accepted CONNACK.  FALSE:
-   with retry_first_connection a refused first attempt is followed by TWO waits *)
+(* literal statement: the gap between a failure/loss noticed at tf and the next (non-immediate) attempt is
+   min (min_delay * 2^i) max_delay, i = number of such retries since the last accepted CONNACK; the immediate
+   downgrade attempt happens at the time of the CONNACK rc 1 and is not counted.
+   It was FALSE before the /repo fixes 6a826ba+8319104 (first-connection retry waited twice) - the old witness
+   now passes (Link/BackoffWitness.first_retry_run).  For the repaired code it is machine-checked on the
+   exhaustive small scope below and validated by the correspondence runs; the general proof of the timing
+   link (failure -> exactly one full wait -> retry) is not done: C09_delays above covers the delay VALUES for
+   all runs, this one adds WHEN the retry happens. *)
 Definition C09_delays_literal : Prop := forall cfg t0 script, 1 <= c_min cfg <= c_max cfg ->
   gaps_ok (c_min cfg) (c_max cfg) (fst (run_script cfg t0 script)) = true.
-Theorem C09_delays_refuted :
-  exists cfg script t0, 1 <= c_min cfg <= c_max cfg /\ c_act cfg = None /\ c_rof cfg = true /\
-    gaps_ok (c_min cfg) (c_max cfg) (fst (run_script cfg t0 script)) = false.
-Proof. exact delays_refuted. Qed.
-Print Assumptions C09_delays_refuted.
+Theorem C09_delays_literal_small_scope : gaps_scope 5 = true.
+Proof. exact gaps_small_scope. Qed.
+Print Assumptions C09_delays_literal_small_scope.
 
-(* ---- 2. every failure is followed by another attempt: loop_forever ends only because the script ended
-   (REnd: one more attempt was made after everything the script contains), because the application acted,
-   because reconnect_on_failure is off, or with the documented OSError of a refused first attempt without
-   retry_first_connection.  Exclusion: the first CONNACK rc 1 is directly followed by a refused connect *)
-Theorem C09_retries_partial : forall cfg t0 script, downgrade_then_refused script = false ->
+(* ---- 2. every failure is followed by another attempt: for EVERY configuration and script loop_forever ends only
+   because the script ended (REnd: one more attempt was made after everything the script contains), because
+   the application acted, because reconnect_on_failure is off, or with the documented OSError of a refused first
+   attempt without retry_first_connection.  (Before fix d2253bf a refused connect during the protocol
+   downgrade ended it with an OSError: the old witness now passes, Link/BackoffWitness.downgrade_refused_run.) *)
+Theorem C09_retries : forall cfg t0 script,
   let r := run_script cfg t0 script in
   match fst (snd r) with
   | PcDone REnd => True
@@ -57,26 +61,13 @@ Theorem C09_retries_partial : forall cfg t0 script, downgrade_then_refused scrip
   | PcDone RRaise => c_retry_first cfg = false /\ first_is_refused script = true
   | _ => False
   end.
-Proof. exact retries_partial. Qed.
-Print Assumptions C09_retries_partial.
-
-Definition C09_retries_full : Prop := forall cfg t0 script,
-  let r := run_script cfg t0 script in
-  match fst (snd r) with
-  | PcDone REnd => True
-  | PcDone (RRet _) => has_act (fst r) = true \/ c_rof cfg = false
-  | PcDone RRaise => c_retry_first cfg = false /\ first_is_refused script = true
-  | _ => False
-  end.
-Theorem C09_retries_refuted :
-  exists cfg script t0, c_act cfg = None /\ c_rof cfg = true /\ first_is_refused script = false /\
-    fst (snd (run_script cfg t0 script)) = PcDone RRaise.
-Proof. exact retries_refuted. Qed.
-Print Assumptions C09_retries_refuted.
+Proof. exact retries. Qed.
+Print Assumptions C09_retries.
 
 (* ---- 3. finality: after disconnect()/stop (issued in any callback, or during any sleep chunk of a wait), and
-   after the first failure when reconnect_on_failure is off, no connection attempt is made any more -
-   for every configuration and script; together with C09_terminates: loop_forever returns *)
+   after the first failure/loss when reconnect_on_failure is off (failures inside the first-connection loop are
+   governed by retry_first_connection, as documented), no connection attempt is made any more - for every
+   configuration and script; together with C09_terminates and C09_retries: loop_forever returns *)
 Theorem C09_final : forall cfg t0 script,
   final_ok (c_rof cfg) (fst (run_script cfg t0 script)) = true.
 Proof. exact final_no_attempt. Qed.
@@ -93,7 +84,14 @@ Example C09_mixed_run :
   fst (snd (run_script (cfg_plain 2 5 false) 100 mixed_script)) = PcDone REnd.
 Proof. exact mixed_run. Qed.
 
-Example C09_first_retry_double_wait :
+Example C09_first_retry_regression :
   attempts (fst (run_script (cfg_plain 1 8 true) 0 [Refused; Refused; Refused; Refused]))
-  = [(0, false); (3, false); (7, false); (15, false); (23, false)].
-Proof. exact first_retry_double_wait_run. Qed.
+  = [(0, false); (1, false); (3, false); (7, false); (15, false)] /\
+  gaps_ok 1 8 (fst (run_script (cfg_plain 1 8 true) 0 [Refused; Refused; Refused; Refused])) = true.
+Proof. exact first_retry_run. Qed.
+
+Example C09_downgrade_refused_regression :
+  let r := run_script (cfg_plain 1 8 false) 0 [Downgrade; Refused; Refused; ClosedBeforeConnack] in
+  attempts (fst r) = [(0, false); (0, true); (1, false); (3, false); (7, false)] /\
+  gaps_ok 1 8 (fst r) = true /\ fst (snd r) = PcDone REnd.
+Proof. exact downgrade_refused_run. Qed.
